@@ -5,6 +5,7 @@ import (
 	"errors"
 	"fmt"
 	"math"
+	"math/big"
 	"math/rand/v2"
 	"testing"
 	"time"
@@ -14,6 +15,7 @@ import (
 
 	"github.com/ava-labs/hypersdk/chain"
 	ifees "github.com/ava-labs/hypersdk/internal/fees"
+	"github.com/ava-labs/hypersdk/internal/validitywindow"
 	"github.com/ava-labs/hypersdk/state"
 	"github.com/ava-labs/hypersdk/zzverif/chainfx"
 	"github.com/ava-labs/hypersdk/zzverif/kit"
@@ -53,6 +55,92 @@ func c10Oracle(c c10Case) bool {
 		}
 	}
 	return inRange(c.TS, c.AuthRng)
+}
+
+// c10BigInterval is the interval part of the statement in arbitrary precision:
+// whole second, expiry >= block timestamp, expiry <= block timestamp + window.
+// sumFits reports whether block timestamp + window is representable as int64.
+func c10BigInterval(expiry, ts, window int64) (ok bool, why string, sumFits bool) {
+	be, bt := big.NewInt(expiry), big.NewInt(ts)
+	up := new(big.Int).Add(bt, big.NewInt(window))
+	sumFits = up.IsInt64()
+	switch {
+	case expiry%1000 != 0:
+		return false, "C10/accepts-unaligned-expiry", sumFits
+	case be.Cmp(bt) < 0:
+		return false, "C10/accepts-expired", sumFits
+	case be.Cmp(up) > 0:
+		return false, "C10/accepts-too-far-ahead", sumFits
+	}
+	return true, "C10/rejects-executable", sumFits
+}
+
+// genC10Extreme draws (expiry, block timestamp, window) at opposite ends of the
+// int64 range and around the point where expiry - timestamp is not representable.
+func genC10Extreme(rng *rand.Rand) (c c10Case, class string) {
+	const span = 1 << 20
+	lo := func() int64 { return math.MinInt64 + int64(rng.Uint64N(span+1)) }
+	hi := func() int64 { return math.MaxInt64 - int64(rng.Uint64N(span+1)) }
+	c = c10Case{ChainOK: true, MaxAct: 16, NActions: 1, Ranges: [][2]int64{{-1, -1}}, AuthRng: [2]int64{-1, -1}}
+	c.Window = []int64{0, 1, 999, 1000, 1001, 5000, 60000, 1 << 20, 1 << 21, 1 << 40, 1 << 62, math.MaxInt64}[rng.IntN(12)]
+	offset := func() int64 { // offsets around 0 and around the window
+		w := c.Window
+		switch rng.IntN(8) {
+		case 0:
+			return 0
+		case 1:
+			return 1000
+		case 2:
+			return w
+		case 3:
+			return w - w%1000
+		case 4:
+			if w < math.MaxInt64-1000 {
+				return w - w%1000 + 1000
+			}
+			return w
+		case 5:
+			return int64(rng.Uint64N(uint64(min(w, 1<<22)) + 1))
+		case 6:
+			return -1000
+		default:
+			return int64(rng.Uint64N(1 << 22))
+		}
+	}
+	switch rng.IntN(8) {
+	case 0:
+		class = "expiry-min/ts-max"
+		c.Expiry, c.TS = lo(), hi()
+	case 1:
+		class = "expiry-max/ts-min"
+		c.Expiry, c.TS = hi(), lo()
+	case 2:
+		class = "both-min"
+		c.TS = lo()
+		c.Expiry = c.TS + offset() // cannot overflow upwards here; a negative offset may wrap below MinInt64, which is just another extreme pair
+	case 3:
+		class = "both-max"
+		c.TS = hi()
+		c.Expiry = c.TS + offset() // wraps to the other end when the sum is not representable
+	case 4, 5:
+		// expiry = ts + k - 2^64 with k in and around [0, window]: the wrapped difference expiry - ts equals k
+		class = "wrap(expiry-ts)-in-window"
+		c.TS = math.MaxInt64 - int64(rng.Uint64N(uint64(min(c.Window, 1<<21))+1))
+		c.Expiry = c.TS + offset()
+	case 6:
+		// ts = expiry + k - 2^64: the wrapped difference ts - expiry is small
+		class = "wrap(ts-expiry)-small"
+		c.Expiry = hi()
+		c.TS = c.Expiry + offset()
+	default:
+		class = "ts-max-exact"
+		c.TS = []int64{math.MaxInt64, math.MaxInt64 - 1, math.MaxInt64 - 807, math.MaxInt64 - 808, math.MinInt64, math.MinInt64 + 1, math.MinInt64 + 808}[rng.IntN(7)]
+		c.Expiry = []int64{math.MinInt64 + 808, math.MinInt64 + 1808, math.MaxInt64 - 807, math.MaxInt64 - 1807, math.MinInt64, math.MaxInt64}[rng.IntN(6)]
+	}
+	if rng.IntN(5) != 0 {
+		c.Expiry -= c.Expiry % 1000 // whole second (towards zero: never leaves the int64 range)
+	}
+	return c, class
 }
 
 func boundary(rng *rand.Rand, center int64) int64 {
@@ -151,7 +239,9 @@ func genC10(rng *rand.Rand, ts int64) c10Case {
 func TestC10(t *testing.T) {
 	r := kit.Start(t, "C10", "exploration")
 	r.Rule("cases = (expiry, block timestamp, validity window, chain id match, action count vs limit, per-action and auth activation ranges with -1 sentinels), expiry drawn at/around both interval bounds (+-1 ms, +-1 s, aligned/unaligned, negative, far), |t| <= 2^62. Oracle = the closed formula of the statement. Layers: Transaction.PreExecute at an arbitrary timestamp; Chain.Execute of a block containing the transaction (block valid iff formula); PreExecutor.PreExecute (admission) at the current time with a clock bracket and >= 30 s margins. Distinct = distinct (clause outcome vector, boundary offsets).")
-	r.Assume("timestamps beyond 2^62 ms are out of scope (the oracle's own sums would overflow)", "negative activation bounds other than -1 are not generated")
+	r.Rule("extremes: (expiry, block timestamp, window) with the two timestamps at opposite ends of the int64 range (within 2^20 of MinInt64 / MaxInt64, both orders), both at the same end, and pairs built so that the wrapped int64 difference expiry - timestamp (or timestamp - expiry) lands in and around [0, window]; windows 0 .. MaxInt64; mostly whole-second expiries. Oracle = the interval clauses in math/big; judged at validitywindow.VerifyTimestamp, Base.Execute and Transaction.PreExecute. Acceptances are always judged; refusals only when timestamp+window is an int64.")
+	r.Rule("admission at the bounds: MinBlockGap 500 ms; S = first whole second beyond now+window, submitted less than 500 ms before S becomes admissible, and S = first whole second after now, submitted less than 500 ms before it expires. The monitor reads the wall clock only to bracket the pre-executor's own clock read (before <= code's now <= after): an admission is a violation iff S > after+window, a refusal iff after <= S <= before+window, i.e. only when wrong at every instant of the bracket. Sleeps position the call, they never decide; attempts that miss the 500 ms sliver are counted, not judged as landed.")
+	r.Assume("timestamps beyond 2^62 ms are out of scope for the formula loop (the oracle's own sums would overflow); the extremes loop uses math/big instead", "negative activation bounds other than -1 are not generated", "where block timestamp + window is not representable as int64, a refusal of a triple inside the interval is not judged (the statement says 'only if')", "the wall clock does not step backwards inside a bracket (brackets with after < before are discarded)")
 	ctx := context.Background()
 	rng := r.Rand("formula")
 	chainID := ids.ID{5}
@@ -191,6 +281,51 @@ func TestC10(t *testing.T) {
 			r.Count("executable", 1)
 		} else {
 			r.Count("not_executable", 1)
+		}
+	}
+
+	// extremes of the int64 range: the interval clauses in arbitrary precision, at the three entry points that share them
+	rng = r.Rand("extremes")
+	ne := r.N(6000, 200000)
+	for i := 0; i < ne && r.Violations() < 10; i++ {
+		c, class := genC10Extreme(rng)
+		want, key, sumFits := c10BigInterval(c.Expiry, c.TS, c.Window)
+		tx, err := buildC10Tx(c, chainID)
+		if err != nil {
+			t.Fatal(err)
+		}
+		rules := chainfx.LooseRules()
+		rules.ValidityWindow = c.Window
+		rules.MaxActionsPerTx = c.MaxAct
+		var got [3]error
+		r.Guard("validitywindow.VerifyTimestamp", c, func() { got[0] = validitywindow.VerifyTimestamp(c.Expiry, c.TS, 1000, c.Window) })
+		r.Guard("Base.Execute", c, func() { got[1] = (&chain.Base{Timestamp: c.Expiry, ChainID: chainID}).Execute(rules, c.TS) })
+		r.Guard("Transaction.PreExecute", c, func() {
+			got[2] = tx.PreExecute(ctx, zeroFees, bh, rules, state.ImmutableStorage{}, c.TS)
+		})
+		r.Eval()
+		judged := true
+		for l, layer := range []string{"validitywindow.VerifyTimestamp", "Base.Execute", "Transaction.PreExecute"} {
+			switch {
+			case got[l] == nil && !want:
+				r.Violation(key, c, "%s accepted (expiry %d, block timestamp %d, window %d) [%s]; in exact arithmetic the triple is outside the validity interval", layer, c.Expiry, c.TS, c.Window, class)
+			case got[l] != nil && want && sumFits:
+				r.Violation(key, c, "%s returned %v for (expiry %d, block timestamp %d, window %d) [%s]; the triple is inside the validity interval", layer, got[l], c.Expiry, c.TS, c.Window, class)
+			case got[l] != nil && want:
+				judged = false // timestamp+window is not an int64: a refusal is not judged (the statement only says "only if")
+			}
+		}
+		if !judged {
+			r.Count("extreme_refusals_unjudged_ts_plus_window_not_int64", 1)
+		}
+		d := new(big.Int).Sub(big.NewInt(c.Expiry), big.NewInt(c.TS))
+		r.Distinct("ext", class, c.Expiry%1000 == 0, d.Sign(), d.BitLen(), c.Window, want, got[0] == nil)
+		r.Count("extreme_cases", 1)
+		if want {
+			r.Count("extreme_executable", 1)
+		}
+		if i < 2 {
+			r.Sample(c)
 		}
 	}
 
@@ -303,6 +438,100 @@ func TestC10(t *testing.T) {
 		r.Distinct("adm", c.Expiry%1000 == 0, (c.Expiry-t0)/1000, c.ChainOK, c.NActions-int(c.MaxAct), w0)
 		r.Count("admission_cases", 1)
 	}
+
+	// admission exactly at the bounds. The pre-executor reads the wall clock itself (once, between our two
+	// readings), so the monitor reads it only to bracket that read: before <= the code's now <= after.
+	//  far side : S = first whole second > now+window. Admitting S is wrong for EVERY instant of the bracket iff S > after+window.
+	//  near side: S = first whole second > now. Refusing S is wrong for EVERY instant of the bracket iff after <= S and S <= before+window.
+	// Sleeping only positions the call less than MinBlockGap before the instant at which the verdict flips; it never decides.
+	rng = r.Rand("admission-sliver")
+	const sliverGap = int64(500)
+	target := r.N(2, 12)
+	landed := map[bool]int{}
+	for attempt := 0; attempt < 4*target && (landed[true] < target || landed[false] < target) && r.Violations() < 10; attempt++ {
+		far := attempt%2 == 0
+		if landed[true] >= target {
+			far = false
+		} else if landed[false] >= target {
+			far = true
+		}
+		rules := chainfx.LooseRules()
+		rules.ValidityWindow = []int64{5000, 60000, 120000}[rng.IntN(3)]
+		rules.MinBlockGap = sliverGap
+		rules.MinUnitPrice = [5]uint64{}
+		a := chainfx.SpyAddr(1)
+		fx, err := chainfx.New(chainfx.Options{Rules: rules, Alloc: allocOf(a, 1<<40)})
+		if err != nil {
+			t.Fatal(err)
+		}
+		inst, err := fx.NewChain(chainfx.ChainCfg{})
+		if err != nil {
+			t.Fatal(err)
+		}
+		window := rules.ValidityWindow
+		c := c10Case{Window: window, ChainOK: true, MaxAct: rules.MaxActionsPerTx, NActions: 1, Ranges: [][2]int64{{-1, -1}}, AuthRng: [2]int64{-1, -1}}
+		now := time.Now().UnixMilli()
+		var d int64 // ms until the verdict for S flips
+		if far {
+			c.Expiry = ((now+window)/1000 + 1) * 1000
+			d = c.Expiry - window - now
+		} else {
+			c.Expiry = (now/1000 + 1) * 1000
+			d = c.Expiry - now
+		}
+		tx, err := buildC10Tx(c, rules.ChainID)
+		if err != nil {
+			t.Fatal(err)
+		}
+		if d > sliverGap {
+			time.Sleep(time.Duration(d-sliverGap/2) * time.Millisecond)
+		}
+		var got error
+		before := time.Now().UnixMilli()
+		r.Guard("Chain.PreExecute", c, func() { got = inst.Chain.PreExecute(ctx, fx.Genesis, fx.DB, tx) })
+		after := time.Now().UnixMilli()
+		inst.Close()
+		S := c.Expiry
+		if after < before { // the wall clock was set back: no bracket
+			r.Count("admission_sliver_clock_stepped", 1)
+			continue
+		}
+		if far {
+			c.TS = after
+			if S <= after+window {
+				r.Count("admission_sliver_missed", 1)
+				continue
+			}
+			r.Eval()
+			if got == nil {
+				r.Violation("admission/C10/accepts-too-far-ahead", c, "admitted expiry %d while the wall clock went from %d to %d: %d..%d ms beyond now+window(%d) at every instant of the call", S, before, after, S-window-after, S-window-before, window)
+			}
+			if S <= before+window+sliverGap {
+				landed[true]++
+				r.Count("admission_sliver_probes", 1)
+				r.Distinct("adm-far", window, (S-window-after)/50)
+			} else {
+				r.Count("admission_sliver_missed", 1)
+			}
+		} else {
+			c.TS = before
+			if S < after || S > before+window {
+				r.Count("admission_near_expiry_missed", 1)
+				continue
+			}
+			r.Eval()
+			if got != nil {
+				r.Violation("admission/C10/rejects-executable", c, "refused expiry %d with %v while the wall clock went from %d to %d: not expired and within the window(%d) at every instant of the call", S, got, before, after, window)
+			}
+			if S < before+sliverGap {
+				landed[false]++
+				r.Count("admission_near_expiry_probes", 1)
+				r.Distinct("adm-near", window, (S-after)/50)
+			} else {
+				r.Count("admission_near_expiry_missed", 1)
+			}
+		}
+	}
 	r.Finish(r.N(500, 5000))
 }
 
@@ -338,7 +567,9 @@ type c11Case struct {
 	RootOK      bool   `json:"root_matches"`
 	Gap         int64  `json:"min_block_gap"`
 	EmptyGap    int64  `json:"min_empty_block_gap"`
-	FutureClass string `json:"future_class"` // "past" | "far-future"
+	FutureClass string `json:"future_class"` // "past" | "far-future" | "sub-second-beyond-bound" | "just-within-bound"
+	Before      int64  `json:"clock_before_ms,omitempty"`
+	After       int64  `json:"clock_after_ms,omitempty"`
 }
 
 func c11Oracle(c c11Case) (bool, string) {
@@ -360,7 +591,8 @@ func c11Oracle(c c11Case) (bool, string) {
 func TestC11(t *testing.T) {
 	r := kit.Start(t, "C11", "exploration")
 	r.Rule("crafted children (height, timestamp, tx count, state root each exact / off by +-1 / far off) of the genesis block and of executed descendants, random min block gaps incl. 0, executed by the real processor; accept iff height = parent+1, ts >= parent BLOCK timestamp + gap (empty gap without txs), ts <= now + future bound (only classes >= 30 s away from the bound are judged), state root = parent post-state root. Distinct = distinct (parent kind, field offsets).")
-	r.Assume("the future bound is judged only with timestamps at least 30 s on either side of now+bound")
+	r.Rule("future bound at ms resolution: otherwise valid children of genesis stamped with the last millisecond of the second containing now+bound (up to 999 ms beyond the bound), and controls stamped now+bound-(0..50 ms), spread over the phases of the wall-clock second. The monitor reads the wall clock only to bracket the processor's own clock read (before <= code's now <= after): acceptance is a violation iff ts > after+bound, refusal of a control iff ts <= before+bound, i.e. only when wrong at every instant of the bracket; everything else is counted as undetermined.")
+	r.Assume("in the crafted-children loop the future bound is judged only with timestamps at least 30 s on either side of now+bound", "the wall clock does not step backwards inside a bracket (brackets with after < before are discarded)")
 	ctx := context.Background()
 	rng := r.Rand("cases")
 	n := r.N(700, 20000)
@@ -498,7 +730,91 @@ func TestC11(t *testing.T) {
 			r.Sample(c)
 		}
 	}
-	_ = errors.Is
+
+	// the future bound at millisecond resolution. The processor reads the wall clock itself (once, during
+	// Execute), so the monitor reads it only to bracket that read: before <= the code's now <= after.
+	//  beyond: T = last millisecond of the second containing before+bound. Accepting T is wrong for EVERY instant of the bracket iff T > after+bound.
+	//  within: T = before+bound-(0..50). Refusing T is wrong for EVERY instant of the bracket (T <= before+bound <= now+bound).
+	rng = r.Rand("future-bound")
+	bound := chain.FutureBound.Milliseconds()
+	np := r.N(24, 240)
+	for i := 0; i < np && r.Violations() < 10; i++ {
+		if i > 0 {
+			time.Sleep(37 * time.Millisecond) // positioning only: spreads the probes over the phases of the wall-clock second
+		}
+		rules := chainfx.LooseRules()
+		rules.MinBlockGap = []int64{0, 1, 100, 1000, 7000}[rng.IntN(5)]
+		rules.MinEmptyBlockGap = []int64{0, 1, 750, 2500, 20000}[rng.IntN(5)]
+		w := chainfx.NewWorld(rng, 4, 2, false, rules)
+		fx, err := w.Fixture()
+		if err != nil {
+			t.Fatal(err)
+		}
+		root, err := fx.DB.GetMerkleRoot(ctx)
+		if err != nil {
+			t.Fatal(err)
+		}
+		g := chainfx.DefaultGen()
+		g.PBalanceKey = 0
+		c := c11Case{Parent: "genesis", ParentTS: fx.Genesis.Tmstmp, ParentH: fx.Genesis.Hght, Height: fx.Genesis.Hght + 1, RootOK: true, Gap: rules.MinBlockGap, EmptyGap: rules.MinEmptyBlockGap, NTxs: rng.IntN(2)}
+		within := i%4 == 3
+		c.Before = time.Now().UnixMilli()
+		if within {
+			c.FutureClass = "just-within-bound"
+			c.TS = c.Before + bound - int64(rng.IntN(51))
+		} else {
+			c.FutureClass = "sub-second-beyond-bound"
+			c.TS = (c.Before+bound)/1000*1000 + 999
+			if c.TS <= c.Before+bound+5 {
+				r.Count("future_bound_probe_skipped_phase", 1)
+				continue
+			}
+		}
+		if c.ParentTS+max(c.Gap, c.EmptyGap) > c.TS { // cannot happen with a 2023 genesis header; keeps the probe "otherwise valid"
+			t.Fatalf("harness: genesis timestamp %d too close to now", c.ParentTS)
+		}
+		var txs []*chain.Transaction
+		for k := 0; k < c.NTxs; k++ {
+			tx, err := w.GenTx(rng, g, c.TS)
+			if err != nil {
+				t.Fatal(err)
+			}
+			txs = append(txs, tx)
+		}
+		sb, err := chain.NewStatelessBlock(fx.Genesis.GetID(), c.TS, c.Height, txs, root, nil)
+		if err != nil {
+			t.Fatal(err)
+		}
+		blk := chain.NewExecutionBlock(sb)
+		var o execOutcome
+		r.Guard("Chain.Execute", c, func() { o = execOnce(ctx, fx, chainfx.ChainCfg{Cores: 1, Fetch: 1}, blk, fx.DB) })
+		c.After = time.Now().UnixMilli()
+		if c.After < c.Before { // the wall clock was set back: no bracket
+			r.Count("future_bound_clock_stepped", 1)
+			continue
+		}
+		if within {
+			r.Eval()
+			if o.err != nil {
+				r.Violation("C11/rejects-valid-child", c, "child with timestamp %d refused (%v) although the wall clock went from %d to %d: at most %d ms ahead, bound %d ms", c.TS, o.err, c.Before, c.After, c.TS-c.Before, bound)
+			}
+			r.Count("future_bound_within_probes", 1)
+			r.Distinct("fb-within", c.TS-c.Before-bound, c.Before%1000/50, c.NTxs)
+			continue
+		}
+		if c.TS <= c.After+bound {
+			r.Count("future_bound_probe_undetermined", 1)
+			continue
+		}
+		r.Eval()
+		if o.err == nil {
+			r.Violation("C11/accepts-beyond-future-bound-ms", c, "child with timestamp %d verified although the wall clock went from %d to %d: %d..%d ms beyond now+bound(%d ms) at every instant of the call", c.TS, c.Before, c.After, c.TS-bound-c.After, c.TS-bound-c.Before, bound)
+		} else if !errors.Is(o.err, chain.ErrTimestampTooLate) {
+			r.Count("future_bound_refused_for_other_reason", 1)
+		}
+		r.Count("future_bound_beyond_probes", 1)
+		r.Distinct("fb-beyond", (c.TS-bound-c.After)/50, c.NTxs)
+	}
 	_ = fmt.Sprint
 	r.Finish(r.N(300, 3000))
 }
